@@ -142,7 +142,22 @@ def run(ck, m):
               'Client::left decrements the selected database and mirrors it' if ok and keyed else
               'left: decrement=%s mirror-after=%s keyed-by-selection=%s' % (bool(ldec), ok, keyed), '%s:%s' % (lb.file, lb.line))
         callers = [cb for (cb, cbi) in P.callers().get(lb.id, []) if not cb.id.startswith('nundb::client::')]
-        ck.floor('C17.a', len(callers), 3, 'transport session-end sites calling Client::left')
+        # every transport's session end (the place that dispatches "unwatch-all") gives the connection back
+        pr = m.reentry_names()
+        ends = []
+        for b in P.user_bodies():
+            if b.id.startswith(('nundb::client::', 'nundb::command_line::')):
+                continue
+            for bi, t in b.calls():
+                if callee(t) in pr and t['args'] and any(const_str(r) == 'unwatch-all' for r in origins(b, t['args'][0])):
+                    ends.append((b, bi))
+        for b, bi in ends:
+            lefts = [x for x, t in b.calls() if callee(t) == lb.id]
+            okl = any(b.postdominates(x, bi) for x in lefts)
+            ck.ob('C17.a', short(b.id), 'session-end-gives-connection-back', okl,
+                  'the session end calls Client::left on every path' if okl else
+                  'this transport ends a session (unwatch-all) without Client::left: its connection stays counted for ever', b.loc(bi))
+        ck.floor('C17.a', len(ends), 3, 'transport session-end sites')
     # ---- (b) ---------------------------------------------------------------------------
     # mirror(): reads the counter in its own critical section and writes the key in another one; the
     # update happened in a third.  Atomic only if one lock spans update, read and write.
